@@ -5,9 +5,12 @@ cd /repo || exit 2
 if [ -n "$(git status --porcelain --untracked-files=no)" ]; then echo "/repo not clean"; exit 2; fi
 git apply "$patch" 2>/dev/null || git apply --3way "$patch" 2>/dev/null || { echo "PATCH DOES NOT APPLY: $patch"; git reset -q --hard HEAD; exit 3; }
 cd /verif
+EVBAK=$(mktemp -d); cp -r /verif/evidence/. $EVBAK/ 2>/dev/null
 for c in "$@"; do
   out=$(VERIF_TIER=${TIER:-quick} ./check $c 2>&1); rc=$?
   echo "[$c rc=$rc] $(echo "$out" | grep -c '^VIOLATION') violation lines; $(echo "$out" | tail -1)"
   echo "$out" | grep -E "^ +[0-9]+ x " | head -4
 done
 git -C /repo reset -q --hard HEAD; rm -rf /verif/replays
+# evidence files are rewritten by every run: put back the ones produced on the unchanged tree
+rm -rf /verif/evidence; mkdir -p /verif/evidence; cp -r $EVBAK/. /verif/evidence/; rm -rf $EVBAK
